@@ -413,7 +413,8 @@ func (p *Path) callSSA(caller *frame, callpos token.Pos, fn *ssa.Function, args 
 	if p.depth > 400 {
 		p.abortf("call depth exceeded (recursion budget)")
 	}
-	defer func() { p.depth-- }()
+	p.fnStack = append(p.fnStack, fn)
+	defer func() { p.depth--; p.fnStack = p.fnStack[:len(p.fnStack)-1] }()
 	if p.res.Funcs != nil {
 		p.res.Funcs[fn.String()] = true
 	}
